@@ -202,6 +202,22 @@ def programs(tier):
         text = head + decls_ + "fn main() -> unit {\n" + stmt + "    ()\n}\n"
         out.append({"prog": TextProgram("c19_cross_" + kind.replace("-", "_"), text, lines), "family": "c19", "ident": f"c19:same-name-in-two-packages:{kind}", "expect": "accept",
                     "extra_files": {"Lib/lib.gom": lib}})
+    # ---- two user names that differ only in characters a sanitiser could drop, merge or fold (trailing / doubled underscore, an
+    # underscore before a digit, letter case), used side by side as every kind of entity: both keep their own Go identity
+    near = [("total", "total_"), ("a_b", "a__b"), ("x1", "x_1"), ("ab", "aB")]
+    ctxs = {
+        "captured-by-one-closure": ("", "    let {A} = 1;\n    let {B} = 20;\n    let f = |z: int32| z + {A} * 100 + {B};\n    let r = f(3);\n", "123"),
+        "captured-by-nested-closures": ("", "    let {A} = 1;\n    let f = |z: int32| {{ let {B} = 20; let g = |y: int32| y + {A} * 100 + {B}; g(z) }};\n    let r = f(3);\n", "123"),
+        "fields": ("struct P {{ {A}: int32, {B}: int32 }}\n", "    let p = P {{ {A}: 1, {B}: 20 }};\n    let r = p.{A} * 100 + p.{B};\n", "120"),
+        "locals": ("", "    let {A} = 1;\n    let {B} = 20;\n    let r = {A} * 100 + {B};\n", "120"),
+        "functions": ("fn {A}() -> int32 {{ 1 }}\nfn {B}() -> int32 {{ 20 }}\n", "    let r = {A}() * 100 + {B}();\n", "120"),
+        "parameters": ("fn g({A}: int32, {B}: int32) -> int32 {{ {A} * 100 + {B} }}\n", "    let r = g(1, 20);\n", "120"),
+        "methods": ("struct P {{ v: int32 }}\nimpl P {{\n    fn {A}(self: P) -> int32 {{ self.v }}\n    fn {B}(self: P) -> int32 {{ self.v * 20 }}\n}}\n", "    let p = P {{ v: 1 }};\n    let r = p.{A}() * 100 + p.{B}();\n", "120"),
+    }
+    for a, b in near:
+        for cname, (decl_, body, val) in ctxs.items():
+            text = decl_.format(A=a, B=b) + "fn main() -> unit {\n" + body.format(A=a, B=b) + "    let _ = string_println(int32_to_string(r));\n    ()\n}\n"
+            out.append({"prog": TextProgram(f"c19_near_{a}_{b}_{cname}".replace("-", "_"), text, [val]), "family": "c19", "ident": f"c19:near-names:{a}+{b}:{cname}", "expect": "accept"})
     # ---- a function called `main` in an imported package is an ordinary function (only the root package's `main` is the entry)
     out.append({"prog": TextProgram("c19_library_function_main", "package Main\nimport Lib\n\nfn main() -> unit {\n    let _ = string_println(int32_to_string(Lib::main() + Lib::twice()));\n    ()\n}\n", ["123"]),
                 "family": "c19", "ident": "c19:library-function-named-main", "expect": "accept",
